@@ -322,6 +322,20 @@ def enum_cases(tier):
 @st.composite
 def hyp_cases(draw, tier):
     spec = draw(gen.forest_specs(max_nodes=16, max_depth=6, max_width=4, min_nodes=3, alphabet=["a", "b", "c", "d", "e"]))
+    if draw(st.sampled_from([0, 1])):
+        # equal-comparing siblings: the data of an earlier sibling under another explicit data_id
+        counter = [0]
+
+        def eq_(nodes):
+            for j, nd in enumerate(nodes):
+                if j > 0 and draw(st.sampled_from([0, 0, 1])):
+                    nd[0] = nodes[draw(st.integers(0, j - 1))][0]
+                    counter[0] += 1
+                    del nd[2:]
+                    nd.append({"id": f"E{counter[0]}"})
+                eq_(nd[1])
+
+        eq_(spec)
     n = gen.spec_nodes(spec)
     pool = draw(st.sampled_from([VERDICTS + ["S1"], ["T", "F", "N", "S", "B"], ["T", "F", "S0"], ["T", "F", "N", "N", "F", "X"], ["T", "F"]]))
     verdicts = draw(st.lists(st.sampled_from(pool), min_size=n, max_size=n))
